@@ -108,9 +108,30 @@ def gen_c02_sites():
     _order(cs, [r'if\s*\(\s*!\(l1\.size\(\)\s*&&\s*l2\.size\(\)\)\s*\)\s*return\s+c\s*;', r'for\s*\(\s*const\s+auto\s*&\s*v1\s*:\s*l1\s*\)',
                 r'for\s*\(\s*const\s+auto\s*&\s*v2\s*:\s*l2\s*\)', r'auto\s+v\s*=\s*v1\.values\s*\+\s*v2\.values\s*;'], relc)
 
+    relv = 'include/AIToolbox/Utils/Polytope.hpp'
+    pv = E.strip_comments(E.read(relv))
+    mh = re.search(r'PointSurface\s+findVerticesNaive\s*\(\s*NewIt\s+beginNew', pv)
+    if not mh:
+        raise E.ExtractError('findVerticesNaive: definition not found')
+    mo = re.compile(r'\)\s*\{').search(pv, mh.end())      # the parameter list has `P1{}` defaults: the body starts at `) {`
+    if not mo:
+        raise E.ExtractError('findVerticesNaive: body not found')
+    fb = pv[mo.end() - 1:_block_end(pv, mo.end() - 1)]
+    fv_line = E.lineno(pv, mh.start())
+    if re.search(r'boundary\[\s*index\s*-\s*alphasSize\s*\]\s*=\s*0\.0\s*;', fb) and re.search(r'm\.row\(counter\)\s*=\s*boundary\s*;', fb):
+        fvn_rows = False
+    elif (re.search(r'm\.row\(i\s*\+\s*1\)\.setZero\(\)\s*;', fb) and re.search(r'm\.row\(i\s*\+\s*1\)\[\s*index\s*-\s*alphasSize\s*\]\s*=\s*1\.0\s*;', fb)
+          and re.search(r'm\.row\(S\)\.head\(S\)\.fill\(1\.0\)\s*;', fb) and re.search(r'b\[S\]\s*=\s*1\.0\s*;', fb)):
+        fvn_rows = True
+    else:
+        raise E.ExtractError('findVerticesNaive: neither the merged-boundary-row form nor the row-per-boundary form the model knows')
+    _order(fb, [r'm\.row\(0\)\[S\]\s*=\s*-1\s*;', r'm\.row\(0\)\.head\(S\)\s*=\s*std::invoke\(p1,\s*\*newVIt\)\s*;',
+                r'if\s*\(\s*index\s*<\s*alphasSize\s*\)', r'colPivHouseholderQr\(\)\.solve\('], relv)
+
     out = ['/- GENERATED by tools/extract_c02.py from the library source — do not edit. -/', 'namespace AITB.Gen.C02', '',
            f'/-- {rel}:{ub_line} -/', f'def rtbssGeometricBound : Bool := {"true" if geometric else "false"}',
            f'/-- {rel}:{sim_line} -/', f'def rtbssCompareInsidePrune : Bool := {"true" if inside else "false"}',
+           f'/-- {relv}:{fv_line} -/', f'def fvnBoundaryRows : Bool := {"true" if fvn_rows else "false"}',
            f'/-- {rel}:{sim_line} -/', 'def rtbssSites : List String := ["h0", "iota", "negInf", "forA", "rew", "uBound", "prune", "forO", "update", "diffSmall", "recurse", "cmp", "setMax", "topOnly", "ret"]',
            f'/-- {relp}:{pl[0]} -/', 'def projecterSites : List String := ["impossible", "rewardOnly", "TxVO", "timesGammaPlusR", "overO", "possibleSmall"]',
            f'/-- {reli}:{il[1]} -/', 'def ipScheduleSites : List String := ["pruneEach", "oddOld", "init", "while", "for", "merge", "pruneMerged", "dec", "oddNew", "tmp", "back", "front", "step", "diff", "odd", "moveFront", "union", "pruneUnion"]',
